@@ -1,6 +1,7 @@
 package main
 
 import (
+	"regexp"
 	"encoding/json"
 	"flag"
 	"fmt"
@@ -182,6 +183,25 @@ func main() {
 		pats = []string{"./..."}
 	}
 	eng, err := newEngine(cfg, scratch, pats)
+	// A change to the tree may break harness files of OTHER properties that live in
+	// the same package (they call unexported functions directly). Such files are
+	// not part of this property's check: drop them from the scratch copy and load
+	// again. A file that defines one of this property's harnesses is never dropped.
+	var dropped []string
+	for try := 0; err != nil && try < 4; try++ {
+		bad := droppableHarnessFiles(err.Error(), spec.Harnesses)
+		if len(bad) == 0 {
+			break
+		}
+		for _, bf := range bad {
+			os.Remove(bf)
+			dropped = append(dropped, filepath.Base(bf))
+		}
+		eng, err = newEngine(cfg, scratch, pats)
+	}
+	if err == nil && len(dropped) > 0 {
+		fmt.Printf("gosym: harness files of other properties that do not compile against this tree were left out: %s\n", strings.Join(dropped, ", "))
+	}
 	if err != nil {
 		// the tree (with harnesses) does not load: inconclusive, never an alarm
 		fmt.Printf("INCONCLUSIVE property=%s harness does not load against this tree: %v\n", *prop, firstLine(err.Error()))
@@ -267,4 +287,35 @@ func sortedInts(m map[string]int) []string {
 		r[i] = fmt.Sprintf("%s ×%d", k, m[k])
 	}
 	return r
+}
+
+var harnessFileInErr = regexp.MustCompile(`(/[^\s:]+/zz_verif_[A-Za-z0-9_]+\.go):\d+`)
+
+// droppableHarnessFiles returns the harness files named in a package-load error
+// that define none of the given harness functions ("pkg.Func").
+func droppableHarnessFiles(msg string, harnesses []string) []string {
+	seen := map[string]bool{}
+	var out []string
+	for _, m := range harnessFileInErr.FindAllStringSubmatch(msg, -1) {
+		fn := m[1]
+		if seen[fn] {
+			continue
+		}
+		seen[fn] = true
+		src, err := os.ReadFile(fn)
+		if err != nil {
+			continue
+		}
+		needed := false
+		for _, h := range harnesses {
+			name := h[strings.LastIndex(h, ".")+1:]
+			if strings.Contains(string(src), "func "+name+"(") {
+				needed = true
+			}
+		}
+		if !needed {
+			out = append(out, fn)
+		}
+	}
+	return out
 }
